@@ -3313,7 +3313,8 @@ class Any(OctetString):
             self._tagMap = tagmap.TagMap(
                 {self.tagSet: self},
                 {eoo.endOfOctets.tagSet: eoo.endOfOctets},
-                self
+                # only an untagged ANY stands for whatever tag comes
+                None if self.tagSet else self
             )
 
             return self._tagMap
